@@ -11,6 +11,7 @@ change is applied are restored from git afterwards (they must describe the uncha
 Prints one line per seeded change:  <id>  CAUGHT by Cxx[ (no-failing-input-found)] | MISSED | PATCH-DOES-NOT-APPLY
 Exit status 0 iff every applicable change is caught.
 """
+import fcntl
 import json
 import os
 import re
@@ -38,6 +39,9 @@ def main():
             continue
         meta = json.load(open(os.path.join(d, "meta.json")))
         checks = meta.get("checks") or [name[:3]]
+        # one lock section per seeded change, so that other locked users of /repo take turns
+        lockf = open("/tmp/repo.lock", "w")
+        fcntl.flock(lockf, fcntl.LOCK_EX)
         ok = sh(["git", "-C", REPO, "apply", "--check", patch]).returncode == 0
         applied = False
         if ok:
@@ -48,6 +52,7 @@ def main():
             sh(["git", "-C", REPO, "checkout", "--", "."])
             sh(["git", "-C", REPO, "reset", "-q", "--hard", "HEAD"])
             print(f"{name:48s} PATCH-DOES-NOT-APPLY")
+            fcntl.flock(lockf, fcntl.LOCK_UN); lockf.close()
             continue
         caught = []
         try:
@@ -63,6 +68,8 @@ def main():
         if sh(["git", "-C", REPO, "status", "--porcelain"]).stdout.strip():
             print("ERROR: /repo not clean after undoing", name)
             return 2
+        fcntl.flock(lockf, fcntl.LOCK_UN)
+        lockf.close()
         if caught:
             print(f"{name:48s} CAUGHT by {', '.join(caught)}")
         else:
